@@ -141,4 +141,113 @@ theorem inputReady_result (P : Prog) (c : Cfg) (n : Nat) (s : Sig) (rest : List 
       · show ((listSet c.A.ihs n (·.answered s.line)).getD n default).cb = _
         rw [key]; rfl
 
+/-! ### consequences of the pipeline invariant -/
+
+theorem one_reader_of_inv {c0 c : Cfg} (hi : InputInv c0 c) : c.A.readers.length ≤ 1 := by
+  have := hi.one_flight
+  unfold inFlight at this; omega
+
+theorem reader_busy_of_inv {c0 c : Cfg} (hi : InputInv c0 c) (hrd : c.A.readers ≠ []) :
+    c.A.processing = true ∧ c.A.inputStack ≠ [] ∧ c.A.readers.length = 1 ∧ irQueued c = 0 ∧ irCode c.code = 0 := by
+  have h1 := hi.one_flight
+  have hl : 0 < c.A.readers.length := List.length_pos_iff.mpr hrd
+  unfold inFlight at h1
+  have hp := hi.flight_processing (by unfold inFlight; omega)
+  exact ⟨hp, hi.processing_iff.mp hp, by omega, by omega, by omega⟩
+
+theorem idle_quiet_of_inv {c0 c : Cfg} (hi : InputInv c0 c) (hp : c.A.processing = false) :
+    c.A.readers = [] ∧ c.A.inputStack = [] ∧ irQueued c = 0 ∧ irCode c.code = 0 := by
+  have h1 := hi.one_flight
+  have h0' : inFlight c = 0 := by
+    have := hi.flight_processing
+    rw [hp] at this
+    have h2 : inFlight c ≠ 1 := fun h => by cases this h
+    omega
+  unfold inFlight at h0'
+  refine ⟨List.length_eq_zero_iff.mp (by omega), ?_, by omega, by omega⟩
+  have := hi.processing_iff
+  rw [hp] at this
+  exact Decidable.byContradiction fun hne => by cases this.mpr hne
+
+theorem handoff_finds_request_of_inv {c0 c : Cfg} (hi : InputInv c0 c) (s : Sig) (rest : List Instr)
+    (hc : c.code = .inputReceived s :: rest) : c.A.inputStack ≠ [] := by
+  have h1 := hi.one_flight
+  apply hi.processing_iff.mp
+  apply hi.flight_processing
+  unfold inFlight at h1 ⊢
+  rw [hc] at h1 ⊢
+  simp [irCode, Instr.irPending] at h1 ⊢
+  omega
+
+theorem startRequest_ok_iff (c : Cfg) (ih : Nat) (requester : Src) (text : Str) :
+    (∃ c', startRequest c ih requester text = .ok c') ↔
+      (c.A.inputStack = [] ∨ (c.A.ihs.getD ih default).skip = true) ∨
+      ∃ c', ({ c with A := reqRecorded c.A ih requester text } : Cfg).raise .err = .ok c' := by
+  by_cases h : c.A.inputStack = [] ∨ (c.A.ihs.getD ih default).skip = true
+  · exact ⟨fun _ => Or.inl h, fun _ => ⟨_, startRequest_accept c ih requester text h⟩⟩
+  · have h' : c.A.inputStack ≠ [] ∧ (c.A.ihs.getD ih default).skip = false := by
+      refine ⟨fun e => h (Or.inl e), ?_⟩
+      cases hk : (c.A.ihs.getD ih default).skip
+      · rfl
+      · exact absurd (Or.inr hk) h
+    rw [startRequest_refuse c ih requester text h'.1 h'.2]
+    exact ⟨fun h1 => Or.inr h1, fun h1 => h1.resolve_left h⟩
+
+theorem refuse_no_trace (c : Cfg) (ih : Nat) (requester : Src) (text : Str)
+    (hs : c.A.inputStack ≠ []) (hk : (c.A.ihs.getD ih default).skip = false) :
+    (final (startRequest c ih requester text)).A.inputStack = c.A.inputStack ∧
+    (final (startRequest c ih requester text)).A.out = c.A.out ∧
+    (final (startRequest c ih requester text)).A.readers = c.A.readers ∧
+    (final (startRequest c ih requester text)).A.processing = c.A.processing := by
+  rw [startRequest_refuse c ih requester text hs hk]
+  simp only [raise_A]
+  exact ⟨rfl, rfl, rfl, rfl⟩
+
+theorem idle_after_handoff (P : Prog) (c : Cfg) (s : Sig) (rest : List Instr) (rs : List Nat) (r : Nat)
+    (hc : c.code = .inputReceived s :: rest) (hst : c.A.inputStack = rs ++ [r])
+    (ih : Nat) (requester : Src) (text : Str) :
+    ∃ c' c'', step P c = .ok c' ∧ startRequest c' ih requester text = .ok c'' ∧
+      c''.A.inputStack = [c'.A.reqs.length] ∧ c''.A.readers = c'.A.readers ++ [c'.A.reqs.length] ∧
+      c''.A.processing = true := by
+  obtain ⟨c', h1, _, _, h4, _⟩ := handoff_history P c s rest rs r hc hst
+  have h5 := startRequest_accept c' ih requester text (Or.inl (by rw [h4]))
+  refine ⟨c', _, h1, h5, ?_, ?_, rfl⟩
+  · show c'.A.inputStack ++ [c'.A.reqs.length] = _
+    rw [h4]; rfl
+  · show (if c'.A.processing then c'.A.readers else c'.A.readers ++ [c'.A.reqs.length]) = _
+    rw [h4]; rfl
+
+theorem wait_returns_iff (P : Prog) (c c' : Cfg) (ih : Nat) (rest : List Instr)
+    (hc : c.code = .waitInput ih :: rest) (hst : step P c = .ok c') :
+    c'.code = rest ↔ (c.A.ihs.getD ih default).received = true := by
+  rw [step_waitInput P c ih rest hc] at hst
+  split at hst
+  · cases hst; exact ⟨fun _ => ‹_›, fun _ => rfl⟩
+  · split at hst
+    · cases hst
+    · cases hst
+      refine ⟨fun h => ?_, fun h => absurd h ‹_›⟩
+      have := congrArg List.length h
+      simp at this
+      omega
+
+theorem trans_inpTrans {P : Prog} {c c' : Cfg} (ht : Trans P c c') : InpTrans c c' := by
+  cases ht with
+  | step h => have := step_inpTrans P c; rwa [h] at this
+  | deliver h => exact .frame (InpFrame_deliver (Same_refl c) h)
+  | halt h => have := step_inpTrans P c; rwa [h] at this
+
+theorem screen_request (P : Prog) (c : Cfg) (scr : Nat) (args : Option Nat) (rest : List Instr)
+    (hc : c.code = .getInput2 scr args :: rest) (hp : c.retPromptNone = false) :
+    Requested c (final (step P c)) (freshIH (.scr scr) (P.spec scr).skipCheck (some scr))
+      (promptText P defaultPrompt) := by
+  rw [step_getInput2_some P c scr args rest hc hp]
+  exact Requested_congr (requested_of_newIH _ _ _ _ _ _) rfl rfl rfl rfl rfl rfl rfl rfl rfl
+
+theorem blocking_request (P : Prog) (c : Cfg) (scr : Nat) (cont : Bool) (rest : List Instr)
+    (hc : c.code = .blockingInput scr cont :: rest) :
+    Requested c (final (step P c)) (freshIH (.im scr) (P.spec scr).skipCheck none) (blockingText P cont) := by
+  rw [step_blockingInput P c scr cont rest hc]
+  exact Requested_congr (requested_of_newIH _ _ _ _ _ _) rfl rfl rfl rfl rfl rfl rfl rfl rfl
+
 end Simpleline.Input
